@@ -41,15 +41,18 @@ def tlc_values(maxlen):
     return vals, res
 
 
-def one_call(op, args):
+def one_call(op, args, debug=False):
     from . import ms_impl as M
+    import contextlib
+    import io
     writes = []
 
     def server(w, sock):
         writes.append(w)
         return b'NO "x"\r\n'
-    c, s = M.connected_client(server)
-    res = M.call(getattr(c, op), *args)
+    c, s = M.connected_client(server, debug=debug)
+    with contextlib.redirect_stdout(io.StringIO()):
+        res = M.call(getattr(c, op), *args)
     s._flush() if s.pending else None
     return res, writes
 
@@ -62,7 +65,8 @@ def judge_value(v):
         args = tuple(v if a == "V" else a for a in targs)
         exp = [(v if a == "V" else a) for a in texp]
         exp = [e.encode("utf-8") if isinstance(e, str) else e for e in exp]
-        res, writes = one_call(op, args)
+        # long values also with the client's debug flag on (the bytes on the wire must not depend on it)
+        res, writes = one_call(op, args, debug=(len(v) > 200 or len(v) % 5 == 0))
         n += 1
         wire = b"".join(writes)
         if res[0] == "error" and not wire:
